@@ -351,8 +351,9 @@ fn cmd_check(prop: &str, tier: &str) -> i32 {
                             known_lines.insert(format!("KNOWN-FINDING: property={} {} [{}]", prop, k.what, k.key));
                         } else if !violations_out.iter().any(|(x, _)| x.key == v.key) && violations_out.len() < 5 {
                             let eff = if b.aux_samples > 0 { sc_samples.max(b.aux_samples) } else { 0 };
-                            let path = report_violation(&bins, prop, &v, &h, 0, violations_out.len(), eff, &[format!("directed scenario {}", name)], rng::derive(base_seed, &name, 8));
-                            violations_out.push((v, path));
+                            if let Some(path) = report_violation(&bins, prop, &v, &h, 0, violations_out.len(), eff, &[format!("directed scenario {}", name)], rng::derive(base_seed, &name, 8)) {
+                                violations_out.push((v, path));
+                            }
                         }
                     }
                 }
@@ -449,8 +450,9 @@ fn cmd_check(prop: &str, tier: &str) -> i32 {
             if let Some(h) = &r.hist {
                 let mut ft: Vec<String> = r.faults.fired.iter().map(|(k, n)| format!("{} x{}", k, n)).collect();
                 ft.extend(r.actors.iter().cloned());
-                let path = report_violation(&bins, prop, v, h, r.seed, violations_out.len(), b.aux_samples, &ft, rng::derive(r.seed, "aux", 0));
-                violations_out.push((v.clone(), path));
+                if let Some(path) = report_violation(&bins, prop, v, h, r.seed, violations_out.len(), b.aux_samples, &ft, rng::derive(r.seed, "aux", 0)) {
+                    violations_out.push((v.clone(), path));
+                }
             }
         }
     }
@@ -548,7 +550,7 @@ fn report_violation(
     aux_samples: usize,
     fault_trace: &[String],
     pick: u64,
-) -> PathBuf {
+) -> Option<PathBuf> {
     let mut e1 = Executor::new(bins);
     let mut e2 = Executor::new(bins);
     let steps = h.steps();
@@ -568,6 +570,25 @@ fn report_violation(
         budget: 400,
         deadline: Instant::now() + std::time::Duration::from_secs(90),
     };
+    // The simulation is deterministic: a violation is a property of (schedule, code). One that does
+    // not fire again when its recorded schedule is re-executed on fresh nodes (three attempts) was an
+    // event of the machine this check runs on - a node process starved past the watchdog on an
+    // overloaded host, or killed from outside - and is not reported (a replay file that does not
+    // reproduce would be worthless anyway).
+    let mut confirmed = false;
+    for _ in 0..3 {
+        if let Ok(Some(_)) = sh.fires(&steps) {
+            confirmed = true;
+            break;
+        }
+    }
+    if !confirmed {
+        println!(
+            "NOTE: an observation of {} [{}] at step {} did not recur in three re-executions of its schedule on fresh nodes: machine event, not reported ({})",
+            prop, v.key, v.step, v.detail.chars().take(160).collect::<String>()
+        );
+        return None;
+    }
     let min = sh.minimise(steps.clone()).unwrap_or(steps.clone());
     let (detail, final_steps) = match sh.fires(&min) {
         Ok(Some((v2, _))) => (v2.detail, min),
@@ -590,7 +611,7 @@ fn report_violation(
     if let Err(e) = rf.save(&path) {
         eprintln!("HARNESS-ERROR cannot write {}: {}", path.display(), e);
     }
-    path
+    Some(path)
 }
 
 fn replay_fires(rf: &ReplayFile, e1: &mut Executor, e2: &mut Executor) -> Result<Option<Violation>, String> {
